@@ -110,3 +110,17 @@ Theorem C05_decoded_packet_timestamps_full :
               (has_tse d = true -> map k_tse K = stamps_of 1 (w_log w)).
 Proof. exact history_stamps_full. Qed.
 Print Assumptions C05_decoded_packet_timestamps_full.
+
+(* ------------------------------------------------------------------ tie by translation: the tracing function *)
+(* The public tracing function <prefix><dst>_trace_<ert> as REGENERATED from the template text of
+   barectf.c.j2 on every run (tools/c2coq.py -> Gen/CSkelFuns.v fn_trace), run by the semantics of
+   Tracer/CSkelTrace.v, is Model.trace_fn for every data stream type, event record type, argument
+   list and world: in particular the clock is sampled once, first, into the saved timestamp which the record and the packet switch then use -
+   is what the theorems of this file speak about.  An edit of that template breaks this theorem or
+   the fail-closed translator before any differential run. *)
+From BT.Tracer Require Import CSkel CSkelTrace CSkelTraceProofs.
+From BT.Gen Require Import CSkelFuns.
+Theorem C05_trace_fn_is_the_translated_C :
+  forall d e args w, run_trace d skel_funs e args fn_trace w = Some (trace_fn d e args w).
+Proof. exact skel_trace. Qed.
+Print Assumptions C05_trace_fn_is_the_translated_C.
